@@ -258,6 +258,10 @@ impl RocksDB {
 
     /// Write batch into transaction db.
     pub fn write(&self, batch: &RocksDBWriteBatch) -> Result<()> {
+        #[cfg(feature = "verif-hooks")]
+        crate::verif_hooks::point("write:before");
+        #[cfg(feature = "verif-hooks")]
+        let _verif_after = crate::verif_hooks::After("write:after");
         self.inner.write(&batch.inner).map_err(internal_error)
     }
 
@@ -279,6 +283,10 @@ impl RocksDB {
     ///
     /// Default: false
     pub fn write_sync(&self, batch: &RocksDBWriteBatch) -> Result<()> {
+        #[cfg(feature = "verif-hooks")]
+        crate::verif_hooks::point("write-sync:before");
+        #[cfg(feature = "verif-hooks")]
+        let _verif_after = crate::verif_hooks::After("write-sync:after");
         let mut wo = WriteOptions::new();
         wo.set_sync(true);
         self.inner
